@@ -909,7 +909,7 @@ impl Gen {
             typ_w = [10; 8];
         }
         let cfg = GenCfg {
-            max_ops: if thorough { c.range(20, 400) as usize } else { c.range(10, 80) as usize },
+            max_ops: if crate::common::long_run(seed, tier) { if thorough { c.range(300, 1500) as usize } else { c.range(200, 600) as usize } } else if thorough { c.range(20, 400) as usize } else { c.range(10, 80) as usize },
             n_clients,
             max_bts: if focus == "C08" { c.range(2, 6) as usize } else { c.range(1, 4) as usize },
             w_insert: *c.pick(&[30, 40, 60]),
@@ -1173,7 +1173,10 @@ impl Engine for E1J {
         let path = if layer == Layer::Server && w.one_in(4) { Path::Json } else { Path::Direct };
         let single = layer == Layer::Server && w.one_in(3);
         let mut cfg = WorldCfg::exchange(true);
-        if tier == Tier::Thorough {
+        if crate::common::long_run(seed, tier) {
+            cfg.n_min = 100;
+            cfg.n_max = if tier == Tier::Thorough { 600 } else { 300 };
+        } else if tier == Tier::Thorough {
             cfg.n_max = 60;
             cfg.sym_max = 6;
         }
